@@ -441,7 +441,11 @@ impl SymExpr {
                     // x / b / c => x / (b * c)
                     (SymExpr::Div(lhs, c1), c2) => match (&*c1, c2) {
                         (SymExpr::Value(c1), SymExpr::Value(c2)) if *c1 != 0 && c2 != 0 => {
-                            (*lhs).clone() / SymExpr::Value(c1 * c2)
+                            match c1.checked_mul(c2) {
+                                Some(c1_c2) => (*lhs).clone() / SymExpr::Value(c1_c2),
+                                // Not simplified if the product overflows.
+                                None => (*lhs).clone() / SymExpr::Value(*c1) / SymExpr::Value(c2),
+                            }
                         }
                         (c1, c2) => (*lhs).clone() / (c1.clone() * c2),
                     },
@@ -471,7 +475,13 @@ impl SymExpr {
                     // Where we assume the divisors are non-zero.
                     (SymExpr::DivCeil(lhs, c1), c2) if c2.is_positive() => match (&*c1, c2) {
                         (SymExpr::Value(c1), SymExpr::Value(c2)) if *c1 > 0 && c2 > 0 => {
-                            lhs.div_ceil(&SymExpr::Value(c1 * c2))
+                            match c1.checked_mul(c2) {
+                                Some(c1_c2) => lhs.div_ceil(&SymExpr::Value(c1_c2)),
+                                // Not simplified if the product overflows.
+                                None => lhs
+                                    .div_ceil(&SymExpr::Value(*c1))
+                                    .div_ceil(&SymExpr::Value(c2)),
+                            }
                         }
                         (c1, c2) => lhs.div_ceil(&(c1.clone() * c2)),
                     },
